@@ -525,6 +525,53 @@ func c10(c *Ctx) {
 		c.paramsUsed(r, f)
 	}
 
+	// ---- C10.6 a failed insertion has something to roll back to -------------------------------------------------------
+	// bulkInsert restores lastSnapRoot when an insertion fails half way, and starts from an empty tree when there is none:
+	// whoever installs a root read from disk installs it as lastSnapRoot too, so that "none" means "the tree is empty"
+	r = "C10.6/rollback-target-installed-with-loaded-root"
+	nl := 0
+	for _, fn := range c.allFns {
+		if !fnInPkgs(fn, tbPkgs) || len(fn.Blocks) == 0 {
+			continue
+		}
+		var loads []ssa.Instruction
+		for _, in := range sites(fn, storeTo("TBtree.root")) {
+			// the node returned by readNodeAt itself (a copy of it with a bumped ts keeps the loaded one as target)
+			if ex, ok := in.(*ssa.Store).Val.(*ssa.Extract); ok {
+				if cl, ok := ex.Tuple.(*ssa.Call); ok && calleeName(&cl.Call) == tbT+"readNodeAt" {
+					loads = append(loads, in)
+				}
+			}
+		}
+		if len(loads) == 0 {
+			continue
+		}
+		nl++
+		q := &pathQ{fn: fn, from: loads, to: successReturn, via: storeTo("TBtree.lastSnapRoot")}
+		w := q.bypass()
+		c.check(w == nil, r, fnName(fn)+":loaded-root", c.pos(loads[0].Pos()), "the root read from disk is also installed as lastSnapRoot",
+			"a root read from disk is installed without a rollback target: a bulk insertion that fails before the first flush replaces the whole tree with an empty leaf: "+c.witnessStr(w))
+	}
+	if nl < 1 {
+		c.undecided(r, "floor", "no function installs a root read from disk (OpenWith confirmed by hand)")
+	}
+	if f := c.mustFn(r, tbT+"bulkInsert"); f != nil {
+		// the empty-tree restart of the rollback is taken only when there is no rollback target
+		for i, in := range sites(f, storeTo("TBtree.root")) {
+			st := in.(*ssa.Store)
+			if !isFreshAlloc(st.Val) && !strings.Contains(desc(st.Val), "alloc") {
+				continue
+			}
+			in := in
+			noTarget := whenCond(true, func(a string) bool { return strings.Contains(a, "lastSnapRoot") && strings.Contains(a, "nil") })
+			q := &pathQ{fn: f, fromEntry: true, to: func(x ssa.Instruction) bool { return x == in }, barrier: noTarget}
+			if strings.Contains(desc(st.Val), "innerNode") {
+				continue // the new root built by a split
+			}
+			c.check(q.bypass() == nil, r, fmt.Sprintf("%s:empty-restart-only-without-target#%d", fnName(f), i), c.pos(in.Pos()), "dominated by lastSnapRoot == nil", "bulkInsert can replace the root with an empty leaf although a rollback target exists")
+		}
+	}
+
 	r = "C10.3/snapshots-pin-roots"
 	if f := c.mustFn(r, tbT+"SnapshotMustIncludeTsWithRenewalPeriod"); f != nil {
 		reg := func(in ssa.Instruction) bool {
